@@ -19,7 +19,10 @@ A *case* is one message flow over circuit A plus at most one fault:
                              5.1 s later and exactly k = 0..6 loop iterations after the 5 s grace timer came due
     fault  none (clean run with the complete oracle) or, applied to the cell of the flow that is in flight on link
            `link` of leg `leg`:  xor(pos, mask) | trunc | append | splice(B|C) | foreign(variant) | reflect |
-           crosslink(j)
+           crosslink(j) | cleartext(msg id, plaintext flag) | via6(fault)
+    Benches "dsX<h>" / "dsO<h>" put the exit / the originator on a real dual-stack DispatcherEndpoint (IPv4 + IPv6
+    SimEndpoints); there every fault aimed at that node is delivered to its IPv4 address and (via6) to its IPv6 address,
+    and `cleartext` sends a well-formed, unencrypted message of every cell message id with either flag value.
 
 Oracle (see notes/C04.md): clean runs - exact single delivery with the right destination/origin/circuit; on every link
 the body has exactly h-link layers and peels to the reference plaintext with the originator's and with the nodes' own
@@ -49,12 +52,13 @@ from ipv8.messaging.anonymization.tunnel import (
     PEER_FLAG_RELAY,
     PEER_FLAG_SPEED_TEST,
 )
+from ipv8.messaging.interfaces.dispatcher.endpoint import DispatcherEndpoint
 from ipv8.messaging.interfaces.udp.endpoint import DomainAddress, UDPv4Address, UDPv6Address
 from ipv8_rust_tunnels import generate_session_keys
 
-from .. import core, seams
+from .. import core, fixtures, seams
 from ..ref import c04_ref as ref
-from ..simnet import Datagram
+from ..simnet import Datagram, SimEndpoint
 from ..tunnelworld import TunnelWorld
 
 LEVEL = "fault_enumeration"
@@ -85,6 +89,8 @@ STRICT_RELAY_EARLY = False
 
 MAX_BAD_PER_GROUP = 3
 KNOWN_RELAY_EARLY = "fault-delivered|alter:relay_early-flag-unauthenticated"   # listed in known_findings.json
+
+DUAL_BENCHES = ("dsX1", "dsX2", "dsO1", "dsO2")   # exit X / originator O on a dual-stack DispatcherEndpoint, 1 and 2 hops
 
 RETIRE_VARIANTS = ("exit", "exit-destroy", "relay", "origin")
 RETIRE_OFFSETS = (0.0, 2.5, 4.9, 5.1)       # seconds after the removal started (remove_tunnel_delay is 5 s)
@@ -305,6 +311,9 @@ class Bench:
         dirn = FORWARD if leg == "f" else BACKWARD
         return [("originator", [(k, dirn) for k in self.okeys["A"][link:]]),
                 ("node", [(k, dirn) for k in self.nkeys["A"][link:]])]
+
+    def v6_address_of_receiver(self, leg: str, link: int) -> tuple:
+        raise HarnessError("no dual-stack node in this world")
 
     def may_follow(self, ci: str, travel: str, at: int) -> list:
         """Datagrams a node that cannot authenticate the cell may still emit after a faulty cell entered link `at`:
@@ -638,10 +647,20 @@ class Bench:
     def fault_datagram(self, fl: Flow, held: Datagram, leg: str, link: int, fault: list):  # noqa: ANN201
         """-> (Datagram to deliver, circuit it now claims to belong to, entry link, direction it travels)."""
         kind = fault[0]
+        if kind == "via6":       # the inner fault, but the datagram arrives on the receiver's IPv6 interface
+            fdg, ci, at, travel = self.fault_datagram(fl, held, leg, link, fault[1])
+            fdg.dst = self.v6_address_of_receiver(leg, link)
+            return fdg, ci, at, travel
         data = held.data
         src, dst = tuple(held.src), tuple(held.dst)
         ci, at, travel = "A", link, leg
-        if kind == "xor":
+        if kind == "cleartext":  # a well-formed message of kind fault[1], not encrypted at all, plaintext flag fault[2]
+            evil = ref.payload(40, self.salt + 7)
+            data_msg = (ref.msg_data(DESTS["v4"], ref.ZERO, evil) if leg == "f"
+                        else ref.msg_data(ref.ZERO, DESTS["v4"], evil))
+            body = ref.wellformed_message(fault[1], data_msg, fixtures.public_bin(11))
+            data = ref.make_cell(self.prefix, self.link_cid["A"][link], body, bool(fault[2]))
+        elif kind == "xor":
             pos, mask = fault[1], fault[2]
             data = data[:pos] + bytes([data[pos] ^ mask]) + data[pos + 1:]
         elif kind == "trunc":
@@ -703,8 +722,9 @@ class Bench:
         fl.tables0 = tables0
         if fault is None:
             return self.check_clean(fl)
+        core_fault = fault[1] if fault[0] == "via6" else fault
         family = {"xor": "alter", "trunc": "alter", "append": "alter", "splice": "splice", "crosslink": "splice",
-                  "reflect": "reflect", "foreign": "foreign"}[fault[0]]
+                  "reflect": "reflect", "foreign": "foreign", "cleartext": "foreign"}[core_fault[0]]
         tag = f"{kind}:{leg}"
         v: list = []
         held = self.pump(capture=self.link_pair("A", leg, link))
@@ -714,17 +734,18 @@ class Bench:
             data = self.test_response_data(fl)
             fl.pt["b"] = ref.msg_test_response(fl.ident, data if data is not None else b"")
         self.last_held_len = len(held.data)
-        if fault[0] == "xor" and fault[1] >= len(held.data):
-            raise HarnessError(f"xor position {fault[1]} beyond the {len(held.data)}-byte cell")
+        if core_fault[0] == "xor" and core_fault[1] >= len(held.data):
+            raise HarnessError(f"xor position {core_fault[1]} beyond the {len(held.data)}-byte cell")
         n0, bad0 = self.deliveries(fl)
         if n0 or bad0:
             return [(f"harness:early-delivery|{kind}:{leg}", f"delivered before the held cell arrived: {bad0}")], "x"
         n_wire = len(w.wire_log)
+        n_handlers = len(self.handler_log)
         fdg, ci, at, travel = self.fault_datagram(fl, held, leg, link, fault)
         w.deliver_datagram(fdg)
         self.pump()
         where = f"h={h} size={size} {dk} {kind} leg={leg} link={link} fault={fault}"
-        lenient = (not STRICT_RELAY_EARLY) and fault[0] == "xor" and fault[1] == ref.POS_RELAY_EARLY
+        lenient = (not STRICT_RELAY_EARLY) and core_fault[0] == "xor" and core_fault[1] == ref.POS_RELAY_EARLY
         n1, bad1 = self.deliveries(fl)
         for b in bad1:
             v.append((f"fault-delivered|{family}", f"{where}: {b}"))
@@ -741,6 +762,13 @@ class Bench:
         new = w.wire_log[n_wire:]
         fbody = fdg.data[ref.HEADER_LEN:]
         if not (lenient and n1):
+            ran = self.handler_log[n_handlers:]
+            if ran:
+                v.append((f"fault-delivered|{family}", f"{where}: the faulty datagram was dispatched to cell-message "
+                          f"handler(s) (node, msg id) {ran}: it passed for a cell that came out of the circuit"))
+            if w.tables() != fl.tables0:
+                v.append((f"fault-delivered|{family}", f"{where}: the faulty datagram changed the circuit/relay/exit "
+                          f"tables from {fl.tables0} to {w.tables()}"))
             allowed = self.may_follow(ci, travel, at)
             got = [(tuple(d.src), tuple(d.dst)) for d in new]
             if got != allowed[:len(got)]:
@@ -931,8 +959,65 @@ class E2EBench(Bench):
         return fl
 
 
+class DualWorld(TunnelWorld):
+    """TunnelWorld in which the nodes named in `dual` sit on a real DispatcherEndpoint with an IPv4 and an IPv6
+    interface (two SimEndpoints); circuits are built over IPv4 as usual, the IPv6 address is reachable for anybody."""
+
+    def __init__(self, seed_key, roles: dict, dual: list, **kw) -> None:  # noqa: ANN001, ANN003
+        self._dual = set(dual)
+        self.v6: dict[str, tuple] = {}
+        super().__init__(seed_key, roles, **kw)
+
+    def add_node(self, name: str, key_index: int, address=None, curve: str = "curve25519"):  # noqa: ANN001, ANN201
+        node = super().add_node(name, key_index, address, curve)
+        if name in self._dual:
+            n = len(self.nodes)
+            a6 = UDPv6Address(f"2001:db8::{n}", 1000 + n)
+            ep6 = SimEndpoint(self, a6, name + "-v6")
+            ep6.node = node
+            disp = DispatcherEndpoint([])
+            disp.interfaces = {"UDPIPv4": node.endpoint, "UDPIPv6": ep6}
+            disp.interface_order = ["UDPIPv4", "UDPIPv6"]
+            disp._preferred_interface = node.endpoint
+            self.endpoints[tuple(a6)] = ep6
+            node.endpoint = disp
+            self.v6[name] = tuple(a6)
+        return node
+
+
+class DualBench(Bench):
+    """Bench "dsX<h>" / "dsO<h>": the exit X or the originator O is a dual-stack node."""
+
+    def __init__(self, bid: str, seed: int) -> None:
+        self.bid = bid
+        self.dual = bid[2]
+        super().__init__(int(bid[3]), seed)
+
+    def make_world(self) -> TunnelWorld:
+        w = DualWorld(("c04", self.seed, self.bid), ROLES, [self.dual], community_cls=RecTunnel,
+                      key_offset=self.seed % 8)
+        ov = w.ov[self.dual]
+        if not isinstance(ov.endpoint, DispatcherEndpoint) or len(ov.endpoint.interfaces) != 2:
+            raise HarnessError("dual-stack endpoint was not installed")
+        return w
+
+    def v6_address_of_receiver(self, leg: str, link: int) -> tuple:
+        receiver = self.names["A"][link + 1] if leg == "f" else self.names["A"][link]
+        if receiver != self.dual:
+            raise HarnessError(f"the receiver on {leg}{link} is {receiver}, not the dual-stack node {self.dual}")
+        return self.w.v6[self.dual]
+
+
+def hops_of(h) -> int:  # noqa: ANN001
+    return 3 if h == "e2e" else int(h[3]) if isinstance(h, str) else h
+
+
 def make_bench(h, seed: int) -> Bench:  # noqa: ANN001
-    return E2EBench(h, seed) if h == "e2e" else Bench(h, seed)
+    if h == "e2e":
+        return E2EBench(h, seed)
+    if isinstance(h, str) and h.startswith("ds"):
+        return DualBench(h, seed)
+    return Bench(h, seed)
 
 
 # ---- enumeration ----------------------------------------------------------------------------------------------------
@@ -950,7 +1035,7 @@ def cell_len(h: int, kind: str, leg: str, link: int, size: int, dk: str) -> int:
         m = 3
     else:
         m = (5 if leg == "f" else 3) + size
-    return ref.HEADER_LEN + m + OVH * (h - link)
+    return ref.HEADER_LEN + m + OVH * (hops_of(h) - link)
 
 
 def expand(group: list, thorough: bool) -> list:
@@ -965,12 +1050,21 @@ def expand(group: list, thorough: bool) -> list:
             masks = HEADER_MASKS_THOROUGH if (thorough and pos < ref.HEADER_LEN) else MASKS
             out.extend(["xor", pos, m] for m in masks)
         return out
+    if fclass == "xor6":
+        return [["via6", f] for f in expand([h, kind, size, dk, leg, link, "xor"], thorough)]
+    if fclass in ("clear", "clear6"):
+        # create/created with the plaintext flag are how circuits are built: a node is *supposed* to look at them
+        out = [["cleartext", mid, flag] for mid in ref.CELL_MESSAGE_IDS for flag in (0, 1)
+               if (mid, flag) not in ((2, 1), (3, 1))]
+        return out if fclass == "clear" else [["via6", f] for f in out]
+    if fclass == "misc6":
+        return [["via6", f] for f in [["trunc"], ["append"], *(["foreign", var] for var in FOREIGN_VARIANTS)]]
     if fclass == "misc":
         out = [["trunc"], ["append"], ["reflect"]]
         if h != "e2e":
             out.extend([["splice", "B"], ["splice", "C"]])
         out.extend(["foreign", var] for var in FOREIGN_VARIANTS)
-        out.extend(["crosslink", j] for j in range(3 if h == "e2e" else h) if j != link)
+        out.extend(["crosslink", j] for j in range(hops_of(h)) if j != link)
         return out
     raise HarnessError(fclass)
 
@@ -1030,6 +1124,16 @@ def groups(thorough: bool) -> list:
             if shape.startswith("pfx"):
                 out.append([h, f"data@{shape}", ref.SHAPE_SIZE[shape], "v4", "f", 0, "clean"])
                 out.append([h, f"data@{shape}", ref.SHAPE_SIZE[shape], "v4", "f", h - 1, "misc"])
+    # dual-stack exit / originator: the same faulty cells arriving on the node's IPv4 and on its IPv6 interface
+    for bid in DUAL_BENCHES:
+        hops = hops_of(bid)
+        flows = ([("data", "f", hops - 1), ("ping", "f", hops - 1), ("test", "f", hops - 1)] if bid[2] == "X"
+                 else [("reply", "b", 0), ("ping", "b", 0), ("test", "b", 0)])
+        for kind, leg, link in flows:
+            for size in ((24, 279) if thorough and kind != "ping" else (0,) if kind == "ping" else (24,)):
+                out.append([bid, kind, size, "v4", leg, 0, "clean"])
+                for fclass in ("xor", "xor6", "misc", "misc6", "clear", "clear6"):
+                    out.append([bid, kind, size, "v4", leg, link, fclass])
     # end-to-end (hidden service) circuit: D -> N3 -> rendezvous -> S and back
     if thorough:
         e2e_xor = sorted(set(range(0, 65)) | set(range(64, 1401, 64)) | set(QUICK_SIZES) | {1399})
@@ -1059,8 +1163,8 @@ def group_cost(g: list, thorough: bool) -> int:
         return 150          # needs a world of its own
     if fclass == "clean":
         return 2 + size // 200
-    if fclass == "misc":
-        return 14
+    if fclass in ("misc", "misc6", "clear", "clear6"):
+        return 16
     n = cell_len(h, kind, leg, link, size, dk)
     return 2 * n + (7 * ref.HEADER_LEN if thorough else 0)
 
@@ -1068,7 +1172,7 @@ def group_cost(g: list, thorough: bool) -> int:
 def pack_items(gs: list, thorough: bool, target: int) -> list:
     """Bins of groups with the same hop count and about `target` cases each (one bench per bin)."""
     items = []
-    for h in (1, 2, 3, "e2e"):
+    for h in (1, 2, 3, "e2e", *DUAL_BENCHES):
         cur, cost = [], 0
         for g in sorted((g for g in gs if g[0] == h), key=lambda g: -group_cost(g, thorough)):
             c = group_cost(g, thorough)
@@ -1125,8 +1229,11 @@ def run_item(h, gs: list, seed: int, thorough: bool) -> dict:
                           f"h={h} case={case}: {traceback.format_exc()[-900:]}")]
                     outcome = "exception"
                 out["evals"] += 1
-                ck = fclass if fclass != "xor" else ("xor-header" if fault[1] < ref.HEADER_LEN else "xor-body")
-                ck = ck if fclass != "misc" else fault[0]
+                inner = fault[1] if fault is not None and fault[0] == "via6" else fault
+                ck = fclass if fclass not in ("xor", "xor6") else ("xor-header" if inner[1] < ref.HEADER_LEN
+                                                                    else "xor-body")
+                ck = ck if fclass not in ("misc", "misc6", "clear", "clear6") else inner[0]
+                ck = ck + "-via-ipv6" if fclass.endswith("6") else ck
                 ck = "retire" if g[1] == "retire" else ck
                 known = [(k, x) for k, x in v if k == KNOWN_RELAY_EARLY]
                 if known:          # registered finding: record it, but it neither damages the world nor ends the group
@@ -1159,7 +1266,7 @@ def run_item(h, gs: list, seed: int, thorough: bool) -> dict:
                 if bench is not None and bench.spent:
                     bench.close()
                     bench = None
-            if fclass == "xor":
+            if fclass in ("xor", "xor6"):
                 n = cell_len(h, g[1], g[4], g[5], g[2], g[3])
                 out["positions"] += n
                 if bench is not None and bench.last_held_len != n:
@@ -1173,7 +1280,7 @@ def run_item(h, gs: list, seed: int, thorough: bool) -> dict:
 
 def _build_failure(h, e: Exception) -> tuple:
     if isinstance(e, HarnessError):
-        return (f"clean:no-working-circuit|{'e2e' if h == 'e2e' else f'h{h}'}", f"fault-free set-up failed: {e}")
+        return (f"clean:no-working-circuit|{h if isinstance(h, str) else f'h{h}'}", f"fault-free set-up failed: {e}")
     return (f"harness-exception|{type(e).__name__}|setup", f"h={h}: {traceback.format_exc()[-900:]}")
 
 
@@ -1231,14 +1338,16 @@ def run(ctx: core.Ctx) -> core.Report:
                 "followed by the untouched original; faults = every byte position of the cell XOR each mask, drop/add "
                 "one trailing byte, circuit-id splice onto a second circuit of the same originator (B) and of another "
                 "originator (C) through the same nodes, five kinds of foreign cells, reflection to the sender, replay "
-                "on another link; plus retirement runs (see 'retire' in the module docstring) and payload shapes; "
+                "on another link, well-formed unencrypted messages of every cell message id, and - for a dual-stack "
+                "exit/originator - the same faulty cells arriving on the node's IPv6 interface; plus retirement runs (see 'retire' in the module docstring) and payload shapes; "
                 "distinct_nontrivial = distinct (hops, flow, leg, link, fault class, outcome) tuples "
                 "where outcome is delivered-N / dropped-after-N-hops / accepted-intact(relay_early byte)",
         "samples": [{"bench_hops": h, "first_group": g[0], "groups_in_bench": len(g)} for h, g in items[:2]]
                    + [{"case": [g[1], g[2], g[3], g[4], g[5], f]} for g in (gs[0], gs[-1]) for f in expand(g, ctx.thorough)[:2]],
         "exhaustive": aborted == 0,
         "groups_aborted_after_violations": aborted,
-        "hops": [1, 2, 3, "e2e: downloader - relay - rendezvous point - seeder (3 links)"],
+        "hops": [1, 2, 3, "e2e: downloader - relay - rendezvous point - seeder (3 links)",
+                 "dual-stack exit / originator (DispatcherEndpoint with IPv4 + IPv6 interface), 1 and 2 hops"],
         "links": "every link of the path, both directions",
         "clean_sizes": f"{min(g[2] for g in gs)}..{max(g[2] for g in gs)} ({len({g[2] for g in gs if g[6] == 'clean'})} "
                        "sizes) for data, reply and test flows; ipv4 / ipv6 / hostname destinations for the quick sizes",
@@ -1293,7 +1402,7 @@ def replay(ctx: core.Ctx, data) -> list:  # noqa: ANN001
     if not data:
         return []
     try:
-        h = data["h"] if data["h"] == "e2e" else int(data["h"])
+        h = data["h"] if isinstance(data["h"], str) and not data["h"].isdigit() else int(data["h"])
         b = make_bench(h, int(data["seed"]))
     except Exception as e:  # noqa: BLE001
         k, w = _build_failure(data["h"], e)
